@@ -132,12 +132,13 @@ Lemma tidx_incr_size s t k h ud d : tidx (incr_size s t k h ud d) = tidx s.
 Proof. unfold incr_size. destruct (size_of ud + d <=? 0); reflexivity. Qed.
 Lemma tidx_fold {A} (f : store -> A -> store) l : (forall st a, tidx (f st a) = tidx st) -> forall s, tidx (fold_left f l s) = tidx s.
 Proof. intros H. induction l as [|a l IH]; intros s; simpl; auto. now rewrite IH, H. Qed.
-Lemma tidx_put_seq k ver vs : forall seq delta s s', put_seq s k ver seq delta vs = Some s' -> tidx s' = tidx s.
+Lemma tidx_put_seq k ver vs : forall seq delta s, tidx (fst (put_seq s k ver seq delta vs)) = tidx s.
 Proof.
-  induction vs as [|v vs IH]; intros seq delta s s' H; simpl in H.
-  - now inversion H.
-  - destruct (el_get s TL k ver (SI seq)); [discriminate|]. now rewrite (IH _ _ _ _ H).
+  induction vs as [|v vs IH]; intros seq delta s; simpl; auto.
+  destruct (el_get s TL k ver (SI seq)); auto. now rewrite IH.
 Qed.
+Lemma tidx_apply_fix s k o : tidx (apply_fix s k o) = tidx s.
+Proof. destruct o; reflexivity. Qed.
 Lemma tidx_list_set_meta s k h hd tl s' : list_set_meta s k h hd tl = Some s' -> tidx s' = tidx s.
 Proof.
   unfold list_set_meta. destruct (tl - hd + 1 <? 0); [discriminate|]. destruct (tl - hd + 1 =? 0); intros X; now inversion X.
@@ -233,13 +234,15 @@ Proof.
     destruct (coll_prepare Local s ts TL k) as [[h ud] ex]. destruct (list_meta_of ud) as [[hd0 tl0] size].
     destruct vs; cbn [fst]; auto.
     match goal with |- context [if ?c then _ else _] => destruct c end; cbn [fst]; auto.
-    match goal with |- context [put_seq ?a ?b ?c ?d ?e ?f] => destruct (put_seq a b c d e f) as [s1|] eqn:PS end; cbn [fst]; auto.
-    match goal with |- context [list_set_meta ?a ?b ?c ?d ?e] => destruct (list_set_meta a b c d e) as [s2|] eqn:LS end; cbn [fst]; auto.
-    rewrite (tidx_list_set_meta _ _ _ _ _ _ LS), (tidx_put_seq _ _ _ _ _ _ _ PS). auto.
+    match goal with |- context [put_seq ?a ?b ?c ?d ?e ?f] => pose proof (tidx_put_seq b c f d e a) as PS; destruct (put_seq a b c d e f) as [s1 ok] end.
+    cbn [fst] in PS. destruct ok.
+    + match goal with |- context [list_set_meta ?a ?b ?c ?d ?e] => destruct (list_set_meta a b c d e) as [s2|] eqn:LS end; cbn [fst]; auto.
+      rewrite (tidx_list_set_meta _ _ _ _ _ _ LS), PS. auto.
+    + cbn [fst]. rewrite tidx_apply_fix, PS. auto.
   - (* lpop *) unfold do_lpop. destruct (coll_header Local s ts TL k) as [[h ud] ex].
     destruct (not_exist_or_expired ud ex); cbn [fst]; auto. destruct (list_meta_of ud) as [[hd0 tl0] size].
     destruct (size =? 0); cbn [fst]; auto.
-    destruct (el_get s TL k (h_ver h) (SI (if head then hd0 else tl0))); cbn [fst]; auto.
+    destruct (el_get s TL k (h_ver h) (SI (if head then hd0 else tl0))); cbn [fst]; [|rewrite tidx_apply_fix; auto].
     match goal with |- context [list_set_meta ?a ?b ?c ?d ?e] => destruct (list_set_meta a b c d e) as [s2|] eqn:LS end; cbn [fst]; auto.
     rewrite (tidx_list_set_meta _ _ _ _ _ _ LS). auto.
 Qed.
